@@ -134,11 +134,15 @@ fn run_tree(depth: usize, incoming: u8) {
 }
 
 #[kani::proof]
-#[kani::unwind(8)]
+#[kani::unwind(13)]
+#[kani::stub(emit::span::TraceId::try_from_hex, trace_hex_unreachable)]
+#[kani::stub(emit::span::SpanId::try_from_hex, span_hex_unreachable)]
 pub fn c04_q_span_tree_depth1_fresh() { run_tree(1, 0); }
 
 #[kani::proof]
-#[kani::unwind(8)]
+#[kani::unwind(13)]
+#[kani::stub(emit::span::TraceId::try_from_hex, trace_hex_unreachable)]
+#[kani::stub(emit::span::SpanId::try_from_hex, span_hex_unreachable)]
 pub fn c04_q_span_tree_depth1_incoming_typed() { run_tree(1, 1); }
 
 #[kani::proof]
@@ -146,12 +150,14 @@ pub fn c04_q_span_tree_depth1_incoming_typed() { run_tree(1, 1); }
 pub fn c04_t_span_tree_depth1_incoming_text() { run_tree(1, 2); }
 
 #[kani::proof]
-#[kani::unwind(8)]
+#[kani::unwind(13)]
+#[kani::stub(emit::span::TraceId::try_from_hex, trace_hex_unreachable)]
+#[kani::stub(emit::span::SpanId::try_from_hex, span_hex_unreachable)]
 pub fn c04_t_span_tree_depth2_fresh() { run_tree(2, 0); }
 
 /// ids drawn for new spans: non-zero, child keeps the trace id, parent link = creator's span id.
 #[kani::proof]
-#[kani::unwind(4)]
+#[kani::unwind(13)]
 pub fn c04_q_span_ctxt_child_ids() {
     let start: u64 = kani::any();
     kani::assume(start >= 1 && start < u64::MAX - 8);
@@ -170,7 +176,9 @@ pub fn c04_q_span_ctxt_child_ids() {
 }
 
 #[kani::proof]
-#[kani::unwind(8)]
+#[kani::unwind(13)]
+#[kani::stub(emit::span::TraceId::try_from_hex, trace_hex_unreachable)]
+#[kani::stub(emit::span::SpanId::try_from_hex, span_hex_unreachable)]
 pub fn c04_w_twin_rejected_span_is_parent() {
     // false claim: children of a rejected span carry the rejected span's id as ambient span id
     let ctxt = ArrCtxt::new();
@@ -182,3 +190,4 @@ pub fn c04_w_twin_rejected_span_is_parent() {
     });
     core::mem::forget(g);
 }
+
